@@ -26,7 +26,7 @@ type rwOp struct {
 	Code int    `json:"code,omitempty"`
 	N    int    `json:"n,omitempty"`
 	Ctl  bool   `json:"through_response_controller,omitempty"` // flush / hijack: asked for through http.NewResponseController(w), as handlers written for Go 1.20+ do; it is the same operation on the same writer
-	Reg  bool   `json:"hook_registers_another,omitempty"` // before: the function, when it runs, registers one more function (which may or may not run; the ones registered earlier must still run exactly once, in reverse order)
+	Reg  bool   `json:"hook_registers_another,omitempty"`      // before: the function, when it runs, registers one more function (which may or may not run; the ones registered earlier must still run exactly once, in reverse order)
 }
 
 type rwCase struct {
